@@ -242,6 +242,11 @@ fn gen_case(r: &mut StdRng) -> Case {
             _ => ("other".to_string(), "sub".to_string()),
         });
     }
+    if r.gen_bool(0.08) {
+        // a link named like a source whose target's real name is not a source name (the canonical
+        // path has no .txtpp extension): a reported error at most
+        symlinks.push((["tpl.md.txtpp", "sub/tpl.txtpp.md"][r.gen_range(0..2)].to_string(), ["inc.txt", "../inc.txt"][r.gen_range(0..2)].to_string()));
+    }
     Case { symlinks, files, mode, threads: if r.gen_bool(0.1) { 0 } else { r.gen_range(0..=16) }, recursive: r.gen_bool(0.6), trailing: r.gen_bool(0.6), inputs, prebuild: r.gen_bool(0.25) }
 }
 
